@@ -637,12 +637,15 @@ func (c *Ctx) Prelude() string {
 		specText = c.specs.emit(c)
 	}
 	sb.WriteString("(set-option :produce-models true)\n(set-logic ALL)\n")
+	// (A flattened (object id, path) representation was tried to make rootof a selector; it made the
+	// solvers slower and is not used.)
 	sb.WriteString(fmt.Sprintf("(declare-datatypes ((Loc 0)) (((lnil) (lroot (rid Int)) (lfield (fbase Loc) (fid Int)) (lelem (ebase Loc) (eidx %s)))))\n", idx))
+	sb.WriteString("(define-fun is_lelem ((l Loc)) Bool ((_ is lelem) l))\n")
+	sb.WriteString("(define-fun-rec rootof ((l Loc)) Int (ite ((_ is lnil) l) (- 1) (ite ((_ is lroot) l) (rid l) (ite ((_ is lfield) l) (rootof (fbase l)) (rootof (ebase l))))))\n")
 	sb.WriteString(fmt.Sprintf("(declare-datatypes ((Slice 0)) (((mkslice (sbase Loc) (soff %s) (slen %s) (scap %s)))))\n", idx, idx, idx))
 	sb.WriteString("(declare-sort Str 0)\n(declare-sort F64 0)\n(declare-sort Iface 0)\n(define-sort MapRef () Int)\n(declare-sort ChanRef 0)\n(declare-sort Fn 0)\n(declare-sort Opaque 0)\n")
 	sb.WriteString(fmt.Sprintf("(declare-fun str_len (Str) %s)\n(declare-fun str_at (Str %s) %s)\n", idx, idx, c.sortOf(types.Typ[types.Uint8])))
 	sb.WriteString("(declare-const iface_nil Iface)\n(define-fun map_nil () MapRef (- 1))\n(declare-const fn_nil Fn)\n(declare-const chan_nil ChanRef)\n(declare-fun iface_type (Iface) Int)\n")
-	sb.WriteString("(define-fun-rec rootof ((l Loc)) Int (ite ((_ is lnil) l) (- 1) (ite ((_ is lroot) l) (rid l) (ite ((_ is lfield) l) (rootof (fbase l)) (rootof (ebase l))))))\n")
 	for _, s := range c.sortDecl {
 		sb.WriteString(s + "\n")
 	}
@@ -728,7 +731,7 @@ func (c *Ctx) readLeaf(mem MemFn, used *[]memUse, loc string, t types.Type) stri
 	if flatLoc(loc) {
 		return fmt.Sprintf("(select %s %s)", use(c.memKey(t), c.memSort(t)), loc)
 	}
-	return fmt.Sprintf("(ite ((_ is lelem) %s) (select (select %s (ebase %s)) (eidx %s)) (select %s %s))", loc,
+	return fmt.Sprintf("(ite (is_lelem %s) (select (select %s (ebase %s)) (eidx %s)) (select %s %s))", loc,
 		use(c.arrKey(t), c.arrSort(t)), loc, loc, use(c.memKey(t), c.memSort(t)), loc)
 }
 
